@@ -24,7 +24,8 @@ from . import sym, prelude, vocab
 from .sym import zint, zbool, HObj, ZList, HDict
 from .interp import Ctx, Interp, AstFunc, Unsupported, PathAbort, PyRaise, PyExcVal, Env
 from .heap import snapshot, same_value
-from .apply import Old, call_contract_fn, all_clauses
+from .apply import Old, call_contract_fn, all_clauses, call_spec
+from . import crypto  # noqa: F401  (registers the libsodium models)
 from .state import Mk
 
 QUICK_TIMEOUT_MS = 20000
@@ -40,6 +41,7 @@ class FnResult:
         self.vacuous = []         # cases whose requires are unsatisfiable
         self.time_s = 0.0
         self.contracts_used = set()
+        self.outcomes = {}
         self.notes = []
         self.error = None
 
@@ -48,7 +50,7 @@ class FnResult:
 
     def to_json(self):
         return {'key': self.key, 'paths': self.paths, 'cut_paths': self.cut_paths, 'undecided': self.undecided,
-                'vacuous': self.vacuous, 'time_s': round(self.time_s, 3), 'error': self.error,
+                'vacuous': self.vacuous, 'time_s': round(self.time_s, 3), 'error': self.error, 'outcomes': self.outcomes,
                 'contracts_used': sorted(self.contracts_used),
                 'obligations': self.obligations}
 
@@ -100,7 +102,7 @@ def build_cases(reg, contract, fnode):
 
 def run_path(src, reg, contract, fnode, fglobs, case_builder, prefix, opts):
     key = contract.key
-    ctx = Ctx(prefix, axioms=prelude.axioms(getattr(contract.cls, 'axioms', ())), timeout_ms=opts.get('branch_ms', 400),
+    ctx = Ctx(prefix, axioms=prelude.axioms(getattr(contract.cls, 'axioms', ())), timeout_ms=opts.get('branch_ms', 2000),
               fname=key)
     ip = Interp(ctx, src, reg)
     ip.verifying = key
@@ -136,14 +138,14 @@ def run_path(src, reg, contract, fnode, fglobs, case_builder, prefix, opts):
             outcome = ('raise', r.cls, r)
         # ---- spec refinement
         spec = reg.contract_fn(contract, 'spec')
+        ctx.ghost['body_counters'] = dict(ctx.counters)
         if spec is not None:
             ctx.counters = {}
             saved_frames = ip.frames
             ip.frames = []
             ctx.ghost['in_spec'] = True
             try:
-                snames = [a.arg for a in spec.node.args.args]
-                sres = ip.call_ast(spec, [init_copy[n] for n in snames], {})
+                sres = call_spec(ip, spec, init_copy)
                 soutcome = ('return', sres)
             except PyRaise as r:
                 soutcome = ('raise', r.cls, r)
@@ -163,13 +165,29 @@ def run_path(src, reg, contract, fnode, fglobs, case_builder, prefix, opts):
         ctx.ghost['outcome'] = outcome[0] if outcome[0] == 'return' else f'raise {outcome[1].__name__}'
     except PathAbort as a:
         status = a.why
+    except Unsupported as u:
+        # an unmodelled construct on a path that is in fact infeasible (the path solver answered
+        # `unknown` within its small budget somewhere) is not a reason to give up: decide the path
+        # condition with a real budget first
+        s = z3.Solver()
+        s.set('timeout', opts.get('garbage_ms', 5000))
+        for a in ctx.axioms:
+            s.add(a)
+        for c in ctx.pc:
+            s.add(c)
+        if s.check() == z3.unsat:
+            status = 'infeasible'
+            ctx.taken_garbage = True
+        else:
+            raise
     return ctx, status
 
 
 def _call_body(ip, body, key, params):
     """interpret the body with frames labelled by the function key"""
     env = Env(dict(params), None)
-    ip.frames.append({'key': key, 'loop': 0, 'call': {}, 'globs': body.globs})
+    ip.frames.append({'key': key, 'loop': 0, 'call': {}, 'globs': body.globs, 'env': env})
+    ip.ctx.ghost['body_env'] = env
     ip.depth += 1
     try:
         from .interp import _Return
@@ -195,6 +213,7 @@ def _compare(ip, contract, params, sparams, outcome, soutcome):
             ctx.oblige(f'{key}/refine/exception-class', False, 'refine',
                        info={'body': _oc(outcome), 'spec': _oc(soutcome)})
         # the state after a failed call is constrained by `ensures` (invariants, frames) only
+        ctx.oblige(f'{key}/refine/outcome', True, 'refine', info={'body': _oc(outcome)})
         return
     else:
         out = []
@@ -273,6 +292,46 @@ def solve_obligation(ob, timeout_ms, use_cvc5=True):
     return res
 
 
+class IncSolver:
+    """obligations of one path in emission order: the path condition only grows, so one incremental
+    solver is used; each goal is checked under exactly the path condition it was emitted with"""
+
+    def __init__(self, axioms, timeout_ms):
+        self.s = z3.Solver()
+        self.s.set('timeout', timeout_ms)
+        for a in axioms:
+            self.s.add(a)
+        self.n = 0
+        self.timeout_ms = timeout_ms
+
+    def solve(self, ob, use_cvc5=True):
+        t0 = time.time()
+        for c in ob.pc[self.n:]:
+            self.s.add(c)
+        self.n = max(self.n, len(ob.pc))
+        g = ob.goal
+        if z3.is_true(z3.simplify(g)):
+            return {'status': 'discharged', 'backend': 'trivial', 'time_s': 0.0}
+        self.s.push()
+        self.s.add(z3.Not(g))
+        r = self.s.check()
+        if r == z3.sat:
+            res = {'status': 'failed', 'backend': 'z3'}
+            try:
+                m = self.s.model()
+                res['model'] = {str(d): str(m[d])[:200] for d in m.decls() if '!' not in d.name()}
+            except z3.Z3Exception:
+                pass
+            self.s.pop()
+            res['time_s'] = round(time.time() - t0, 3)
+            return res
+        self.s.pop()
+        if r == z3.unsat:
+            return {'status': 'discharged', 'backend': 'z3', 'time_s': round(time.time() - t0, 3)}
+        # unknown: retry from scratch (fresh solver state), then cvc5
+        return solve_obligation(ob, self.timeout_ms, use_cvc5)
+
+
 def cvc5_check(solver, timeout_ms):
     try:
         smt = solver.to_smt2()
@@ -318,16 +377,18 @@ def verify_function(src, reg, key, opts=None):
                 if res.paths > max_paths:
                     raise Unsupported('path explosion')
                 for i in range(len(prefix), len(ctx.taken)):
-                    kk, n, _ = ctx.taken[i]
+                    kk, n, lab = ctx.taken[i]
                     for alt in range(kk + 1, n):
-                        todo.append([t[0] for t in ctx.taken[:i]] + [alt])
+                        todo.append([(t[0], t[2], t[1]) for t in ctx.taken[:i]] + [(alt, lab, n)])
                 res.contracts_used |= ctx.ghost.get('contracts_used', set())
                 res.notes.extend(ctx.notes)
                 pstr = ''.join(str(t[0]) for t in ctx.taken)
+                inc = IncSolver(ctx.axioms, timeout_ms)
+                res.outcomes[ctx.ghost.get('outcome', status)] = res.outcomes.get(ctx.ghost.get('outcome', status), 0) + 1
                 for ob in ctx.obls:
                     if only and not re.search(only, ob.name):
                         continue
-                    r = solve_obligation(ob, timeout_ms, opts.get('cvc5', True))
+                    r = inc.solve(ob, opts.get('cvc5', True))
                     r.update({'name': ob.name, 'kind': ob.kind, 'case': label, 'path': pstr,
                               'outcome': ctx.ghost.get('outcome', status)})
                     if ob.info:
